@@ -10,7 +10,9 @@ RULE = ('(a) valid files of each supported format from the independent generator
         'bytes, ASCII noise, near-miss signatures of every recogniser, and truncations / bit flips / splices / word overwrites / '
         'hostile-number overwrites / line edits of valid files of every format.  Every input is identified through a TapFile under a '
         'LINE-event step counter.  Distinct by input bytes; non-trivial = a valid file in a non-default layout, or a hostile input '
-        'that is not plain random noise (i.e. derived from a valid file or a signature).')
+        'that is not plain random noise (i.e. derived from a valid file or a signature).  (c) a coverage-guided leg: atheris / libFuzzer '
+        'mutates a corpus of valid files and signatures against the same entry points in a child process; every artifact is re-identified '
+        'through the full oracle.')
 ASSUMPTIONS = [
     'expected codes: RP66V1 -> RP66V1; LIS -> LIS / LISt (TIF) ; LAS -> LAS1.2 / LAS2.0 by VERS; BIT -> BIT; DAT -> DAT',
     'TIF-marked LIS files whose first record is exactly 276 bytes share the BIT signature and are excluded, as the property says',
@@ -26,7 +28,7 @@ MECHANISMS = [
     ('TotalDepth.DAT.DAT_parser', 'can_parse_file'), ('TotalDepth.BIT.ReadBIT', 'is_bit_file'),
 ]
 REQUIRED_MONITORS = ['valid_identified', 'metamorphic_same_code', 'no_raise', 'code_in_documented_set', 'rewound_and_unchanged', 'step_budget',
-                     'format_gates_no_raise', 'bit_gate_accepts_valid_bit', 'dat_gate_accepts_valid_dat']
+                     'format_gates_no_raise', 'bit_gate_accepts_valid_bit', 'dat_gate_accepts_valid_dat', 'coverage_guided_no_crash']
 MIN_NONTRIVIAL = {'quick': 20000, 'thorough': 300000}
 NSHARDS = 16
 COUNTS = {'quick': (300, 5000), 'thorough': (4000, 90000)}      # per shard: valid files, hostile inputs
@@ -35,9 +37,12 @@ TIMEOUT_S = {'quick': 400, 'thorough': 3300}
 BUDGET_A, BUDGET_B = 1000, 5_000_000
 
 
+FUZZ_RUNS = {'quick': 25000, 'thorough': 1500000}     # executions of the coverage-guided (atheris / libFuzzer) leg
+
+
 def plan(tier, seed):
     nv, nh = COUNTS[tier]
-    return [{'valid': nv, 'hostile': nh} for _ in range(NSHARDS)]
+    return [{'valid': nv, 'hostile': nh} for _ in range(NSHARDS)] + [{'leg': 'atheris', 'runs': FUZZ_RUNS[tier]}]
 
 
 def identify(rec, bft, steps, data, label, expect=None, witness=None):
@@ -117,7 +122,100 @@ def gates(rec, data, label, expect, code, w):
             rec.violation('dat_gate_accepts_valid_dat', 'refused', 'DAT_parser.can_parse_file is %r for a valid DAT file' % ok, dict(w, got=repr(ok)))
 
 
+def run_atheris(ctx, p):
+    """Coverage-guided leg: libFuzzer (through atheris) mutates a corpus of valid files and signatures against the real
+    identification in a child process; every artifact it leaves is re-identified here through the full oracle."""
+    import re
+    import subprocess
+    import sys
+    from TotalDepth.util import bin_file_type as bft
+    from tdv.mon.hits import StepCounter
+    from tdv.gen import providers, corrupt
+    rec, rng = ctx.rec, ctx.rng
+    tmp = os.environ['VERIF_SHARD_TMP']
+    corpus = os.path.join(tmp, 'corpus')
+    os.makedirs(corpus, exist_ok=True)
+    provs = providers.available()
+    n = 0
+    for fmt in sorted(provs):
+        for _ in range(8):
+            v = provs[fmt](rng)
+            if len(v.data) <= 8192:
+                with open(os.path.join(corpus, 'v%04d' % n), 'wb') as f:
+                    f.write(v.data)
+                n += 1
+    for m in corrupt.MAGICS:
+        with open(os.path.join(corpus, 'm%04d' % n), 'wb') as f:
+            f.write(m)
+        n += 1
+    for _ in range(40):
+        with open(os.path.join(corpus, 'n%04d' % n), 'wb') as f:
+            f.write(corrupt.near_miss(rng))
+        n += 1
+    rec.add('atheris_seed_corpus_files', n)
+    env = dict(os.environ)
+    env['PYTHONPATH'] = os.pathsep.join([os.path.dirname(os.path.dirname(os.path.dirname(os.path.abspath(__file__)))), env.get('PYTHONPATH', '')])
+    steps = StepCounter()
+    remaining, executed, attempt = p['runs'], 0, 0
+    prefix = os.path.join(tmp, 'art-')
+    while remaining > 0 and attempt < 4:
+        attempt += 1
+        cmd = [sys.executable, '-m', 'tdv.props.c20_fuzz', corpus, prefix, '-runs=%d' % remaining, '-seed=%d' % (1 + ctx.seed * 16 + attempt),
+               '-max_len=8192', '-timeout=25', '-rss_limit_mb=3000', '-print_final_stats=1']
+        try:
+            r = subprocess.run(cmd, env=env, stdout=subprocess.PIPE, stderr=subprocess.STDOUT, timeout=TIMEOUT_S[ctx.tier] - 300)
+            out, rc = r.stdout.decode('utf-8', 'replace'), r.returncode
+        except subprocess.TimeoutExpired as e:
+            out, rc = (e.stdout or b'').decode('utf-8', 'replace'), None
+        m = re.search(r'stat::number_of_executed_units:\s*(\d+)', out)
+        done = int(m.group(1)) if m else 0
+        if not m:
+            # libFuzzer prints '#<n>' progress lines; the last one is the number of executions before it stopped
+            nums = re.findall(r'^#(\d+)\s', out, re.M)
+            done = int(nums[-1]) if nums else 0
+        executed += done
+        remaining -= max(done, 1)
+        cov = re.findall(r'cov: (\d+) ft: (\d+) corp: (\d+)', out)
+        if cov:
+            rec.maxi('atheris_coverage_edges', int(cov[-1][0]))
+            rec.maxi('atheris_features', int(cov[-1][1]))
+            rec.maxi('atheris_corpus_units', int(cov[-1][2]))
+        arts = sorted(f for f in os.listdir(tmp) if f.startswith('art-'))
+        if rc == 0:
+            break
+        if rc is None:
+            rec.inconclusive_because('atheris child hit the wall-clock watchdog after %d executions' % executed)
+            break
+        if not arts:
+            rec.inconclusive_because('atheris child exited rc=%s without an artifact: %s' % (rc, out[-400:]))
+            break
+        for a in arts:
+            with open(os.path.join(tmp, a), 'rb') as f:
+                data = f.read()
+            os.unlink(os.path.join(tmp, a))
+            before = sum(rec.violation_kinds.values())
+            identify(rec, bft, steps, data, 'atheris:' + a.split('-')[1])
+            rec.case(data, True, classes=['atheris:artifact'])
+            rec.add('atheris_artifacts')
+            if sum(rec.violation_kinds.values()) == before:
+                # the cheap oracle in the child tripped (or libFuzzer's own timeout / memory limit) but the full oracle here
+                # does not confirm it: say so rather than guess
+                rec.add('atheris_artifacts_not_confirmed')
+                rec.note('atheris_unconfirmed_artifact', {'kind': a.split('-')[1], 'len': len(data), 'input': data[:400], 'child_output_tail': out[-600:]})
+                if a.startswith('art-crash'):
+                    rec.inconclusive_because('atheris artifact %s (%d bytes) stopped the fuzz target but is not confirmed by the in-process oracle' % (a, len(data)))
+    steps.close()
+    rec.mon('coverage_guided_no_crash', executed)
+    new_units = max(0, rec.extra.get('atheris_corpus_units', 0) - n)
+    rec.bulk_cases('atheris coverage-guided inputs (distinct = inputs that reached new coverage)', executed, new_units)
+    rec.add('atheris_executions', executed)
+    if executed < p['runs'] // 2:
+        rec.inconclusive_because('atheris leg executed %d of %d inputs' % (executed, p['runs']))
+
+
 def run_shard(ctx, p):
+    if p.get('leg') == 'atheris':
+        return run_atheris(ctx, p)
     from TotalDepth.util import bin_file_type as bft
     from tdv.mon.hits import StepCounter
     from tdv.gen import providers, corrupt
@@ -175,4 +273,4 @@ LEVEL_TEXT = ('Every input - valid files of each supported format from independe
               'the directory tools are held to the same standard.')
 LEVEL_NOTE = ('Trusted: the generators for what a valid file is; the step budget constants (calibrated ~10x above the maximum observed). '
               'Arbitrary byte strings are sampled, not enumerated; the thorough tier adds volume, not a different oracle.')
-TECHNIQUE = 'runtime monitoring: oracle over identification executions with I/O tap (rewind), sys.monitoring step budget, metamorphic size/content pairs and hostile-input fuzzing'
+TECHNIQUE = 'runtime monitoring: oracle over identification executions with I/O tap (rewind), sys.monitoring step budget, metamorphic size/content pairs, hostile-input generators and coverage-guided fuzzing (atheris/libFuzzer)'
